@@ -11,6 +11,7 @@ VARIABLES hist
 mvars == <<vars, hist>>
 
 ObjText == "{\"a\":1,\"c\":\"z\"}"
+WsObjText == " \n\t{ \"a\" : 1 ,\r\n  \"c\" : \"z\" }\n"
 ObjM == << <<"a", "int", "", WOf(1)>>, <<"c", "str", "z", W0>> >>
 \* an object carrying members of the JSON types the scalar setters cannot create
 ObjText2 == "{\"r\":1.5,\"n\":null,\"o\":{\"x\":1},\"l\":[true]}"
@@ -28,6 +29,9 @@ Scalars == { V("int", n, WOf(5), r, NONE, <<>>, NONE) : n \in Names, r \in {0, 1
       \cup { V("str", n, NONE, r, NONE, <<>>, NONE) : n \in Names, r \in {0, 1} }
 
       \cup { V("bool", n, 1, r, NONE, <<>>, NONE) : n \in Names, r \in {0, 1} }
+\* names that a whole-object merge may have filled with null, an object, an array, a real: a named set without
+\* replace on them is EXIST like on any other existing name
+OnMerged == { V("int", n, WOf(5), r, NONE, <<>>, NONE) : n \in {"n", "o"}, r \in {0, 1} } \cup { V("str", "n", "x", 0, NONE, <<>>, NONE), V("bool", "l", 1, 0, NONE, <<>>, NONE) }
 Jsons == { V("json", n, ObjText, r, "obj", ObjM, ObjText) : n \in Names, r \in {0, 1} }
     \cup { V("json", n, "[1,2]", r, "arr", <<>>, "[1,2]") : n \in Names, r \in {0, 1} }
     \cup { V("json", n, "{\"a\":", r, "malformed", <<>>, NONE) : n \in Names, r \in {0, 1} }
@@ -39,6 +43,12 @@ Jsons == { V("json", n, ObjText, r, "obj", ObjM, ObjText) : n \in Names, r \in {
 Gets == { V(t, n, IF t = "int" THEN W0 ELSE NONE, 0, NONE, <<>>, NONE) : t \in {"int", "str", "bool", "json"}, n \in Names \cup {"r", "n", "o", "l"} }
 Dels == { V("int", n, W0, 0, NONE, <<>>, NONE) : n \in Names }
 
+\* JSON text as a pretty-printer or a file reader hands it over: white space around every token
+WsJsons == { V("json", n, WsObjText, r, "obj", ObjM, ObjText) : n \in {"a", NONE}, r \in {0, 1} }
+      \cup { V("json", "b", "\n [ 1 , 2 ]\n", r, "arr", <<>>, "[1,2]") : r \in {0, 1} }
+\* probes: tried in every reachable state (one implementation test each) but not used to reach further states -
+\* the white-space texts lead where the compact ones lead, the sets on merged names would only multiply the states
+Probes == {[k |-> "set", v |-> v] : v \in OnMerged \cup WsJsons}
 FullAlphabet == {[k |-> "set", v |-> v] : v \in Scalars \cup Jsons}
            \cup {[k |-> "get", v |-> v] : v \in Gets} \cup {[k |-> "del", v |-> v] : v \in Dels}
 SmallAlphabet == {[k |-> "set", v |-> v] : v \in
@@ -105,6 +115,6 @@ MergeRule ==
 
 Emit ==
   IF Mode = "graph"
-  THEN \A a \in Alphabet : PrintT(<<"SCRIPT", ToJson(<<[op |-> "BNew", b |-> 0]>> \o hist \o <<OpRec(a)>>)>>)
+  THEN \A a \in Alphabet \cup Probes : PrintT(<<"SCRIPT", ToJson(<<[op |-> "BNew", b |-> 0]>> \o hist \o <<OpRec(a)>>)>>)
   ELSE (Len(hist) = MaxLen) => PrintT(<<"SCRIPT", ToJson(<<[op |-> "BNew", b |-> 0]>> \o hist)>>)
 =============================================================================
